@@ -95,6 +95,10 @@ func (o *Operations) Move(from string, to string) error {
 		}
 
 		hdr.Size = 0 // Don't try to seek after the record
+
+		// The entry may come from a ustar or GNU archive, whose format can't carry the STFS records
+		hdr.Format = tar.FormatPAX
+
 		hdr.Name = path.Join(to, strings.TrimPrefix(strings.TrimPrefix(dbhdr.Name, "/"), strings.TrimPrefix(from, "/")))
 		hdr.PAXRecords[records.STFSRecordVersion] = records.STFSRecordVersion1
 		hdr.PAXRecords[records.STFSRecordAction] = records.STFSRecordActionUpdate
